@@ -305,6 +305,11 @@ def r5(ctx):
     gr = fr.cfg
     rs = [s for s in gr.stmts(ast.Assign) if any(tail(t) == "reexec_pid" for t in s.ast.targets) and const(s.ast.value, NO) == 0]
     ctx.check("C14.R5", bool(rs), key(fr, "reexec-reset"), site(fr), "reexec_pid is never reset when the new master exits: after a failed upgrade USR2 would be ignored forever and stop() would never unlink", "reexec_pid = 0 when that child is reaped")
+    wpn = [n for c in calls_to(repo, fr, "os.waitpid") for n in nodes_with(fr, c)]
+    p = gr.path(gr.entry, [gr.exit], without_nodes=wpn, follow_exc=False)
+    ctx.check("C14.R5", bool(wpn) and p is None, key(fr, "new-master-always-reaped"), site(fr),
+              "reap_workers can return without waitpid(): with no workers (after WINCH) the exit of the new master is never noticed, reexec_pid stays set and every later USR2 is ignored",
+              "waitpid on every call", path=p and gr.fmt_path(p))
     hs = [n for n in gr.stmts(ast.Raise) if n.raised and n.raised.endswith("HaltServer")]
     if hs:
         def is_new_master(e):
